@@ -64,6 +64,9 @@ def run(check, pool, Task):
         else:
             check.record(t.name, r, 'paths', m)
 
+    from . import glue
+    glue.run(check, pool, Task, ('multipoint',))
+
 
 def replay(path):
     import json
